@@ -27,8 +27,35 @@ BAD_MATCH = ['amount > "x"', 'contains(5)', 'description + 1 == 2', '-descriptio
              '"a" in 5', 'amount in amount', 'fuzzy(description, "UBER", "high")', 'trim(1, 2) == ""', 'extract(5, 5) == ""']
 BAD_VALUE = ['amount + "x"', 'next(r.item for r in rows)', 'extract(description, "(")', 'split(description, "", 0)',
              'description.bogus()', 'field.nope', 'uppercase(1, 2)', 'rows[9]', 'substring("a", "b")', '-description',
-             'regex_replace(description, "(", "")', 'max(r.item for r in nothing)', 'sum(r.item for r in rows)']
+             'regex_replace(description, "(", "")', 'max(r.item for r in nothing)', 'sum(r.item for r in rows)',
+             # lazily evaluated values whose ELEMENTS fail: nothing outside the evaluator may consume them unguarded
+             '(r.item + 1 for r in orders)', '(r.nope for r in orders)', '(-r.item for r in orders)', '[r.item + 1 for r in orders]',
+             '(r.amount > "x" for r in orders)', '(x for x in 5)']
 ROWS = {'rows': [], 'orders': [{'item': 'Book', 'amount': 12.5}]}
+
+
+def _noaddr(tag):
+    """an escaped generator object prints with its address (recorded observation of C03); not part of this comparison"""
+    import re
+    return re.sub(r' at 0x[0-9a-f]+', '', tag)
+
+
+def batch_oracle(f, txn, mode, r):
+    """A rule that cannot be evaluated for ONE item is inapplicable to THAT item only: a long-lived engine classifies
+    a run of near-duplicates (some of which make a rule fail — a missing column, a missing date) and every answer
+    must equal the answer of a fresh engine."""
+    from tally import merchant_engine as ME
+    try:
+        ME.parse_merchants(GR.render_rules(f), mode)
+    except ME.MerchantParseError:
+        return []
+    try:
+        fails = RC.oracle_batch(dict(f, transforms=[]), txn, mode, r, data_sources=ROWS)
+    except Exception:
+        return []          # an abort is reported by engine_oracle
+    for pf in fails:
+        pf['class'] = 'failing-rule-affects-other-items'
+    return fails
 
 
 def plant(r, f):
@@ -86,8 +113,8 @@ def engine_oracle(f, txn, mode):
         try:
             eng2 = ME.parse_merchants(GR.render_rules(dict(f, rules=keep)), mode)
             res2 = eng2.match(copy.deepcopy(t), data_sources=ROWS)
-            a = (res.merchant, res.category, res.subcategory, sorted(res.tags), [x.name for x in res.all_matching_rules])
-            b = (res2.merchant, res2.category, res2.subcategory, sorted(res2.tags), [x.name for x in res2.all_matching_rules])
+            a = (res.merchant, res.category, res.subcategory, sorted(_noaddr(x) for x in res.tags), [x.name for x in res.all_matching_rules])
+            b = (res2.merchant, res2.category, res2.subcategory, sorted(_noaddr(x) for x in res2.tags), [x.name for x in res2.all_matching_rules])
             if a != b:
                 fails.append({'class': 'failing-rule-not-inert', 'rules': text, 'txn': RC.jtxn(txn), 'mode': mode, 'file': f,
                               'observed': a, 'required (failing rules deleted)': b})
@@ -196,9 +223,25 @@ def run(ctx):
         f, failing = plant(r, GR.gen_rules_file(r, txn))
         replay_items.append((f, txn, r.choice(['first_match', 'most_specific'])))
     aborted = 0
+    nbatch = 0
+    if ctx.replay and 'sequence' in ce and 'file' in ce:
+        from tally import merchant_engine as ME
+        text = GR.render_rules(ce['file'])
+        eng = ME.parse_merchants(text, ce.get('mode', 'first_match'))
+        for tv in ce['sequence']:
+            t = RC.txn_for_engine(RC.untxn(tv))
+            got = RC.result_summary(eng.match(copy.deepcopy(t), data_sources=ROWS))
+            want = RC.result_summary(ME.parse_merchants(text, ce.get('mode', 'first_match')).match(copy.deepcopy(t), data_sources=ROWS))
+            if got != want:
+                prop_fail.append(dict(ce, observed=got, required=want))
+                break
+        replay_items = []
     for f, txn, mode in replay_items:
         fails, obs = engine_oracle(f, txn, mode)
         prop_fail.extend(fails)
+        if not ctx.replay and not fails:
+            nbatch += 1
+            prop_fail.extend(batch_oracle(f, txn, mode, r))
         if obs is None:
             aborted += 1
             continue
@@ -242,8 +285,9 @@ def run(ctx):
                        'raw outcome (value or exception class) of the real evaluator vs the Lean model; (2) random expressions with planted '
                        'type errors, raw and through the expression root; (3) generated rule files with failing match / let / field / tag / '
                        'variable / transform expressions × transactions through MerchantEngine.match (oracle: completes, equals the file with '
-                       'failing rules deleted; correspondence with the full model); (4) parse_generic_csv and `python -m tally up` with '
+                       'failing rules deleted; a run of near-duplicate items — some of which make a rule fail — through ONE engine equals fresh engines; correspondence with the full model); (4) parse_generic_csv and `python -m tally up` with '
                        'ill-typed rules and view filters. Non-trivial = the outcome is an exception class or a rule file containing a failing expression')
+    ctx.notes['runs_of_near_duplicate_items_through_one_engine'] = nbatch
     ctx.notes['table_outcomes'] = st1['outcomes']
     ctx.notes['random_outcomes'] = st2['outcomes']
     ctx.notes['unmodelled_skipped'] = {'table': st1['unmodelled'], 'random': st2['unmodelled'], 'why': st1.get('unmodelled_why', {})}
@@ -256,8 +300,9 @@ def run(ctx):
         for _ in range(3000):
             txn = GR.gen_txn(r)
             f, _ = plant(r, GR.gen_rules_file(r, txn, n=r.choice([2, 3])))
-            fails, _ = engine_oracle(f, txn, r.choice(['first_match', 'most_specific']))
-            out.extend(fails)
+            mode = r.choice(['first_match', 'most_specific'])
+            fails, _ = engine_oracle(f, txn, mode)
+            out.extend(fails or batch_oracle(f, txn, mode, r))
             if out:
                 break
         ctx.cov['evaluations'] += 3000
